@@ -350,7 +350,7 @@ fn principal_alias<'a>(file: &'a crate::ir::File, id: &str) -> Option<&'a crate:
 
 pub fn run(ctx: &Ctx) -> (Spec, Report) {
     let n_exh = 2 * (BASES.len() + 2) * 2;
-    let n = n_exh + ctx.tier.pick(1500, 30_000);
+    let n = n_exh + ctx.tier.pick(4000, 40_000);
     let rep = run_rounds(
         ctx,
         "C04",
